@@ -471,7 +471,19 @@ def make_cer(rc: Dict[str, str], fc: Dict[str, bool], hints: Dict[str, Optional[
         fill_in_place = bool(zlib.crc32(",".join(sorted(packages)).encode()) % 2) if packages and packages is not NO_PACKAGE_TABLE else False
     if packages is not NO_PACKAGE_TABLE and packages and fill_in_place:
         # the other way of building a result: the package table is filled in afterwards, entry by entry
-        cer = ContentEvaluationResult(hints=dict(hints), format_constraints=format_constraints, requirement_constraints=requirement_constraints)
+        if zlib.crc32(",".join(sorted(packages)).encode()) // 2 % 2:
+            # ... starting from a result that was loaded from a JSON body without "packages" member (what a backend sends that knows no packages)
+            from ahbicht.models.content_evaluation_result import ContentEvaluationResultSchema
+
+            cer = ContentEvaluationResultSchema().load(
+                {
+                    "hints": dict(hints),
+                    "format_constraints": {k: {"format_constraint_fulfilled": v.format_constraint_fulfilled, "error_message": v.error_message} for k, v in format_constraints.items()},
+                    "requirement_constraints": {k: v.value for k, v in requirement_constraints.items()},
+                }
+            )
+        else:
+            cer = ContentEvaluationResult(hints=dict(hints), format_constraints=format_constraints, requirement_constraints=requirement_constraints)
         try:
             if cer.packages is None:
                 cer.packages = {}
